@@ -15,8 +15,16 @@
      8 layout   []                -> [lg_cur; raw slots]        (oracle only: the model's layout after a rebuild is
                                                                  one valid layout, not the crate's; masked from the tie)
      9 layout0  []                -> [1; raw slots] while theta is at its initial value (no rebuild yet), else [0]
-    10 ser      [ordered]         -> bytes of compact(ordered).serialize(); [-1] for unordered after a rebuild *)
-From DS Require Import Base.Prelude Base.FloatBits Base.ThetaLib Model.Theta.
+    10 ser      [ordered]         -> bytes of compact(ordered).serialize(); [-1] for unordered after a rebuild
+    11 ser_c    [ordered]         -> bytes of compact(ordered).serialize_compressed(); [-1] as for 10
+    12 deser    [bytes...]        -> CompactThetaSketch::deserialize_with_seed(bytes, seed): ERR, or the dump
+                                     [1; empty; ordered; theta; seed_hash; est bits; n; entries in image order];
+                                     the value is kept ("the compact slot") and also queried (estimate, bounds)
+    13 reser    [compressed]      -> bytes of serialize() / serialize_compressed() of the compact slot; [-996] if none
+    14 rt       [ordered; compressed] -> c := compact(ordered); b := c.serialize[_compressed](); d := deserialize(b);
+                                     [L; dump c (L ints); dump d (L ints); bytes of d.serialize[_compressed]() ... ; -2; b ...];
+                                     d is kept in the compact slot; [-1] for unordered after a rebuild *)
+From DS Require Import Base.Prelude Base.FloatBits Base.ThetaLib Base.BitExp Base.Oracles Model.Theta Model.ThetaCodec Spec.ThetaLayout.
 From Coq Require Import Floats FMapPositive.
 Open Scope Z_scope.
 
@@ -39,14 +47,75 @@ Definition ob_dump (s : tsk) : list Z :=
   [Nz (t_theta s); Nz (t_n s); Nz (t_lg_cur s); zbool (sk_is_empty s); zbool (sk_is_estimation_mode s);
    fbits (sk_estimate s); fbits (theta_frac (t_theta s))] ++ map Nz (sortN (sk_entries s)).
 
-Definition step (s : tsk) (o : zop) : option tsk * list Z :=
+(* dump of a compact sketch *)
+Definition ob_csk (c : csk) : list Z :=
+  [1; zbool (ce_empty c); zbool (ce_ordered c); Nz (ce_theta c); Nz (ce_seed_hash c); fbits (c_estimate c);
+   Nz (c_num_retained c)] ++ map Nz (ce_entries c).
+
+Definition ser_of (compressed : bool) (c : csk) : outcome (list N) :=
+  if compressed then c_serialize_compressed c else Ok (c_serialize c).
+
+(* the sketch and the compact slot *)
+Definition cstate := (tsk * option csk)%type.
+
+Definition step_codec (st : cstate) (o : zop) : option cstate * list Z :=
+  let '(s, slot) := st in
   let '(code, a) := o in
-  let upd h := match sk_update s h with Ok s' => (Some s', ob_state s') | _ => (None, PANIC) end in
+  let sh := c_seed_hash (t_cfg s) in
+  match code with
+  | 11 => let ordered := negb (nth 0 a 0 =? 0) in
+          if ordered || at_initial_theta s then
+            match c_serialize_compressed (sk_compact s ordered) with
+            | Ok b => (Some st, map Nz b)
+            | _ => (None, PANIC)
+            end
+          else (Some st, [-1])
+  | 12 => match c_deserialize sh (map zN a) with
+          | Ok c => (Some (s, Some c), ob_csk c)
+          | Err => (Some (s, None), ERR)
+          | Stuck => (None, PANIC)
+          end
+  | 13 => match slot with
+          | None => (Some st, [-996])
+          | Some c => match ser_of (negb (nth 0 a 0 =? 0)) c with
+                      | Ok b => (Some st, map Nz b)
+                      | _ => (None, PANIC)
+                      end
+          end
+  | 14 => let ordered := negb (nth 0 a 0 =? 0) in
+          let compressed := negb (nth 1 a 0 =? 0) in
+          if ordered || at_initial_theta s then
+            let c := sk_compact s ordered in
+            match ser_of compressed c with
+            | Ok b =>
+                match c_deserialize sh b with
+                | Ok d =>
+                    match ser_of compressed d with
+                    | Ok b2 => (Some (s, Some d),
+                                Z.of_nat (length (ob_csk c)) :: ob_csk c ++ ob_csk d ++ map Nz b2 ++ [-2] ++ map Nz b)
+                    | _ => (None, PANIC)
+                    end
+                | Err => (Some (s, None), ERR)
+                | Stuck => (None, PANIC)
+                end
+            | _ => (None, PANIC)
+            end
+          else (Some (s, None), [-1])
+  | _ => (None, PANIC)
+  end.
+
+Definition step (st : cstate) (o : zop) : option cstate * list Z :=
+  let '(s, slot) := st in
+  let '(code, a) := o in
+  let keep (r : option tsk * list Z) : option cstate * list Z :=
+    (match fst r with Some s' => Some (s', slot) | None => None end, snd r) in
+  let upd h := match sk_update ascending s h with Ok s' => (Some s', ob_state s') | _ => (None, PANIC) end in
+  if 11 <=? code then step_codec st o else keep
   match code with
   | 1 => upd (hash_of_h1 (zN (nth 1 a 0)))
   | 2 => upd (zN (nth 0 a 0))
   | 3 => upd (hash_of_h1 (zN (nth 2 a 0)))
-  | 4 => match sk_trim s with Ok s' => (Some s', ob_state s') | _ => (None, PANIC) end
+  | 4 => match sk_trim ascending s with Ok s' => (Some s', ob_state s') | _ => (None, PANIC) end
   | 5 => let s' := sk_reset s in (Some s', ob_state s')
   | 6 => (Some s, ob_compact s (negb (nth 0 a 0 =? 0)))
   | 7 => (Some s, ob_dump s)
@@ -57,7 +126,7 @@ Definition step (s : tsk) (o : zop) : option tsk * list Z :=
   | _ => (None, PANIC)
   end.
 
-Fixpoint run_from (s : option tsk) (ops : list zop) : list (list Z) :=
+Fixpoint run_from (s : option cstate) (ops : list zop) : list (list Z) :=
   match ops with
   | [] => []
   | o :: r =>
@@ -69,7 +138,7 @@ Fixpoint run_from (s : option tsk) (ops : list zop) : list (list Z) :=
 
 Definition run (cfg : list Z) (ops : list zop) : list (list Z) :=
   match sk_build (cfg_of cfg) with
-  | Ok s => run_from (Some s) ops
+  | Ok s => run_from (Some (s, None)) ops
   | _ => run_from None ops
   end.
 
@@ -79,6 +148,7 @@ Definition run (cfg : list Z) (ops : list zop) : list (list Z) :=
       retained = { h offered | 0 < h < theta },  theta non-increasing,
       theta < theta0  ->  more than k distinct offered hashes lie in (0, theta0),
       trim: n' = min n k,  reset: initial state,  compact: same set / emptiness / estimate / theta, sorted when ordered,
+      is_empty <-> nothing was offered since the last reset (the repaired code, D5),
       estimate = n / (theta / 2^63) in binary64 (so exactly n while theta = 2^63-1),
       n <= 15/16 * 2^(lg_k+1)  and  n < 2^lg_cur. *)
 Open Scope N_scope.
@@ -93,7 +163,8 @@ Record ospec := mkO {
   o_theta0 : option N;     (* initial theta, learnt from the first observation *)
   o_theta : N;             (* last observed theta *)
   o_set : hset; o_cnt : N;     (* offered hashes in (0, o_theta), distinct *)
-  o_all : hset; o_allcnt : N   (* offered hashes in (0, theta0), distinct *)
+  o_all : hset; o_allcnt : N;  (* offered hashes in (0, theta0), distinct *)
+  o_off : bool                 (* something was offered since the last reset *)
 }.
 
 Definition MAXT : N := 9223372036854775807.
@@ -103,16 +174,17 @@ Definition ONE_BITS : Z := 0x3ff0000000000000.
 Definition restrict (st : ospec) (th : N) : ospec :=
   if th <? o_theta st then
     let l := filter (fun h => h <? th) (hs_elems (o_set st)) in
-    mkO (o_theta0 st) th (hs_of_list l) (N.of_nat (length l)) (o_all st) (o_allcnt st)
+    mkO (o_theta0 st) th (hs_of_list l) (N.of_nat (length l)) (o_all st) (o_allcnt st) (o_off st)
   else st.
 
 Definition offer (st : ospec) (h : N) : ospec :=
   let th0 := match o_theta0 st with Some t => t | None => 0 end in
   let st1 :=
     if (0 <? h) && (h <? th0) && negb (hs_mem h (o_all st))
-    then mkO (o_theta0 st) (o_theta st) (o_set st) (o_cnt st) (hs_add h (o_all st)) (o_allcnt st + 1) else st in
+    then mkO (o_theta0 st) (o_theta st) (o_set st) (o_cnt st) (hs_add h (o_all st)) (o_allcnt st + 1) true
+    else mkO (o_theta0 st) (o_theta st) (o_set st) (o_cnt st) (o_all st) (o_allcnt st) true in
   if (0 <? h) && (h <? o_theta st1) && negb (hs_mem h (o_set st1))
-  then mkO (o_theta0 st1) (o_theta st1) (hs_add h (o_set st1)) (o_cnt st1 + 1) (o_all st1) (o_allcnt st1) else st1.
+  then mkO (o_theta0 st1) (o_theta st1) (hs_add h (o_set st1)) (o_cnt st1 + 1) (o_all st1) (o_allcnt st1) true else st1.
 
 Definition zget (ob : list Z) (i : nat) : N := zN (nth i ob 0%Z).
 
@@ -136,7 +208,11 @@ Fixpoint strictly_sorted (l : list N) : bool :=
 Definition est_spec (n th : N) : Z :=
   bits_of_float (PrimFloat.div (float_of_Z63 (Nz n)) (PrimFloat.div (float_of_Z63 (Nz th)) (float_of_Z63 (Nz MAXT)))).
 
-Fixpoint kmv_from (cfg : list Z) (st : ospec) (ops : list zop) (obs : list (list Z)) : bool :=
+(* The tracker: follows the Spec state through a history using only the crate's observations.
+   [chk] switches the KMV checks on (oracle kmv_ok); [extra] judges the remaining operations
+   (serialized images: oracles layout12_ok, size_ok) against the Spec state. *)
+Fixpoint track_from (chk : bool) (extra : list Z -> ospec -> Z -> list Z -> list Z -> bool)
+         (cfg : list Z) (st : ospec) (ops : list zop) (obs : list (list Z)) : bool :=
   match ops, obs with
   | (code, a) :: r, ob :: obr =>
       let lgk := zN (nth 0 cfg 0%Z) in
@@ -145,53 +221,184 @@ Fixpoint kmv_from (cfg : list Z) (st : ospec) (ops : list zop) (obs : list (list
       | None, 7%Z =>
           (* first dump of the fresh sketch: learn theta0 (must be 2^63-1 when p = 1.0), n = 0 *)
           let th := zget ob 0 in
-          ((negb (nth 2 cfg 0%Z =? ONE_BITS)%Z) || (th =? MAXT)) && (zget ob 1 =? 0)
-          && kmv_from cfg (mkO (Some th) th hs_empty 0 hs_empty 0) r obr
+          (negb chk || (((negb (nth 2 cfg 0%Z =? ONE_BITS)%Z) || (th =? MAXT)) && (zget ob 1 =? 0)))
+          && track_from chk extra cfg (mkO (Some th) th hs_empty 0 hs_empty 0 false) r obr
       | None, _ => true       (* the generator always starts with a dump *)
       | Some th0, 1%Z | Some th0, 2%Z | Some th0, 3%Z =>
           let h := match code with 1%Z => zN (nth 1 a 0%Z) / 2 | 2%Z => zN (nth 0 a 0%Z) | _ => zN (nth 2 a 0%Z) / 2 end in
           (* the hash is screened against the theta in force BEFORE the update *)
           let '(ok, st') := after_change lgk (offer st h) ob in
-          ok && kmv_from cfg st' r obr
+          (negb chk || ok) && track_from chk extra cfg st' r obr
       | Some th0, 4%Z =>
           let k := 2 ^ lgk in
           let '(ok, st') := after_change lgk st ob in
-          ok && (zget ob 0 =? N.min (o_cnt st) k) && kmv_from cfg st' r obr
+          (negb chk || (ok && (zget ob 0 =? N.min (o_cnt st) k))) && track_from chk extra cfg st' r obr
       | Some th0, 5%Z =>
-          (zget ob 0 =? 0) && (zget ob 1 =? th0)
-          && kmv_from cfg (mkO (Some th0) th0 hs_empty 0 hs_empty 0) r obr
+          (negb chk || ((zget ob 0 =? 0) && (zget ob 1 =? th0)))
+          && track_from chk extra cfg (mkO (Some th0) th0 hs_empty 0 hs_empty 0 false) r obr
       | Some th0, 6%Z =>
           let ordered_arg := negb (nth 0 a 0 =? 0)%Z in
           let empty := negb (nth 0 ob 0 =? 0)%Z in let ordered := negb (nth 1 ob 0 =? 0)%Z in
           let th := zget ob 2 in let n := zget ob 8 in
           let es := map zN (skipn 9 ob) in
           let want := sortN (hs_elems (o_set st)) in
-          (n =? o_cnt st) && (N.of_nat (length es) =? n)
-          && list_eqb N.eqb (if ordered then es else sortN es) want
-          && (negb ordered || strictly_sorted es)
-          && (negb ordered_arg || ordered)
-          && Bool.eqb empty (negb (nth 5 ob 0 =? 0)%Z)             (* same emptiness as the sketch *)
-          && (nth 3 ob 0 =? nth 6 ob 0)%Z                          (* same estimate as the sketch *)
-          && ((n =? 0) || (th =? o_theta st))                      (* same theta when non-empty *)
-          && ((n =? 0) || (nth 3 ob 0 =? est_spec n th)%Z)
-          && (nth 7 ob 0 =? 1)%Z
-          && kmv_from cfg st r obr
+          (negb chk ||
+           ((n =? o_cnt st) && (N.of_nat (length es) =? n)
+            && list_eqb N.eqb (if ordered then es else sortN es) want
+            && (negb ordered || strictly_sorted es)
+            && (negb ordered_arg || ordered)
+            && Bool.eqb empty (negb (nth 5 ob 0 =? 0)%Z)             (* same emptiness as the sketch *)
+            && Bool.eqb empty (negb (o_off st))                      (* empty <-> nothing offered since the last reset *)
+            && (nth 3 ob 0 =? nth 6 ob 0)%Z                          (* same estimate as the sketch *)
+            && (if empty then th =? MAXT else th =? o_theta st)      (* same theta when non-empty *)
+            && (if empty then (nth 3 ob 0 =? 0)%Z else (nth 3 ob 0 =? est_spec n th)%Z)
+            && (nth 7 ob 0 =? 1)%Z))
+          && track_from chk extra cfg st r obr
       | Some th0, 7%Z =>
           let th := zget ob 0 in let n := zget ob 1 in
-          (th =? o_theta st) && (n =? o_cnt st)
-          && list_eqb N.eqb (map zN (skipn 7 ob)) (sortN (hs_elems (o_set st)))
-          && Bool.eqb (negb (nth 4 ob 0 =? 0)%Z) (th <? MAXT)
-          && ((n =? 0) || (nth 5 ob 0 =? est_spec n th)%Z)
-          && (negb (th =? MAXT) || (nth 5 ob 0 =? bits_of_float (float_of_Z63 (Nz n)))%Z)
-          && (16 * n <=? 15 * 2 ^ (lgk + 1)) && (n <? 2 ^ zget ob 2)
-          && kmv_from cfg st r obr
-      | Some _, _ => kmv_from cfg st r obr
+          (negb chk ||
+           ((th =? o_theta st) && (n =? o_cnt st)
+            && list_eqb N.eqb (map zN (skipn 7 ob)) (sortN (hs_elems (o_set st)))
+            && Bool.eqb (negb (nth 4 ob 0 =? 0)%Z) (th <? MAXT)
+            && Bool.eqb (negb (nth 3 ob 0 =? 0)%Z) (negb (o_off st))   (* is_empty <-> nothing offered since the last reset *)
+            && (if o_off st then (nth 5 ob 0 =? est_spec n th)%Z else (nth 5 ob 0 =? 0)%Z)
+            && (negb (th =? MAXT) || negb (o_off st) || (nth 5 ob 0 =? bits_of_float (float_of_Z63 (Nz n)))%Z)
+            && (16 * n <=? 15 * 2 ^ (lgk + 1)) && (n <? 2 ^ zget ob 2)))
+          && track_from chk extra cfg st r obr
+      | Some _, _ => extra cfg st code a ob && track_from chk extra cfg st r obr
       end
   | _, _ => true
   end.
 
 Definition kmv_ok (c : case) : bool :=
-  kmv_from (c_cfg c) (mkO None 0 hs_empty 0 hs_empty 0) (c_ops c) (c_obs c).
+  track_from true (fun _ _ _ _ _ => true) (c_cfg c) (mkO None 0 hs_empty 0 hs_empty 0 false) (c_ops c) (c_obs c).
+
+(* ---- C12: the bytes the crate emits (ops 10, 11; the image inside op 14), decoded by the independent
+   layout decoder Spec/ThetaLayout.v, must be exactly the abstract state the Spec knows the sketch holds:
+   the retained set, theta (2^63-1 when empty), emptiness, the seed hash; sorted when ordered ---- *)
+Definition is_marker (ob : list Z) : bool :=
+  match ob with [x] => (x <? 0)%Z | _ => false end.
+
+Definition abs_matches (cfg : list Z) (st : ospec) (ordered_arg : bool) (d : tabs) : bool :=
+  let empty := negb (o_off st) in
+  abs_okb d
+  && list_eqb N.eqb (sortN (a_entries d)) (sortN (hs_elems (o_set st)))
+  && (a_theta d =? (if empty then MAXT else o_theta st))
+  && Bool.eqb (a_empty d) empty
+  && (a_seed_hash d =? zN (nth 4 cfg 0%Z))
+  && (negb ordered_arg || a_ordered d).
+
+(* the image b of op 14: everything after the marker -2 *)
+Fixpoint after_marker (l : list Z) : list Z :=
+  match l with [] => [] | x :: r => if (x =? -2)%Z then r else after_marker r end.
+
+Definition layout12_extra (cfg : list Z) (st : ospec) (code : Z) (a ob : list Z) : bool :=
+  if is_marker ob then true
+  else if (code =? 10)%Z || (code =? 11)%Z || (code =? 14)%Z then
+    let bytes := map zN (if (code =? 14)%Z then after_marker ob else ob) in
+    match dec_spec (zN (nth 4 cfg 0%Z)) bytes with
+    | Some d => abs_matches cfg st (negb (nth 0 a 0 =? 0)%Z) d
+    | None => false
+    end
+  else true.
+
+Definition layout12_ok (c : case) : bool :=
+  track_from false layout12_extra (c_cfg c) (mkO None 0 hs_empty 0 hs_empty 0 false) (c_ops c) (c_obs c).
+
+(* ---- C18: sizes.  The uncompressed image has 8 * preLongs + 8 * retained bytes with
+   retained <= 15/16 * 2^(lg_k+1); the compressed one is never longer ---- *)
+Definition size_extra (cfg : list Z) (st : ospec) (code : Z) (a ob : list Z) : bool :=
+  if is_marker ob then true
+  else
+    let lgk := zN (nth 0 cfg 0%Z) in
+    let n := o_cnt st in
+    let empty := negb (o_off st) in
+    let est := negb empty && (o_theta st <? MAXT) in
+    let pre := if est then 3 else if empty || (n =? 1) then 1 else 2 in
+    let v3len := 8 * pre + 8 * n in
+    if (code =? 10)%Z then (N.of_nat (length ob) =? v3len) && (16 * n <=? 15 * 2 ^ (lgk + 1))
+    else if (code =? 11)%Z then (N.of_nat (length ob) <=? v3len)
+    else true.
+
+Definition size_ok (c : case) : bool :=
+  track_from false size_extra (c_cfg c) (mkO None 0 hs_empty 0 hs_empty 0 false) (c_ops c) (c_obs c).
+
+(* ---- C11: op 14 forks the compact sketch through serialize / deserialize: the copy must answer
+   every query as the original and re-serialize to the same bytes ---- *)
+Fixpoint before_marker (l : list Z) : list Z :=
+  match l with [] => [] | x :: r => if (x =? -2)%Z then [] else x :: before_marker r end.
+
+Fixpoint rt_from (ops : list zop) (obs : list (list Z)) : bool :=
+  match ops, obs with
+  | (code, a) :: r, ob :: obr =>
+      (if (code =? 14)%Z && negb (list_eqb Z.eqb ob PANIC) && negb (list_eqb Z.eqb ob [(-1)%Z]) then
+         match ob with
+         | l :: rest =>
+             let L := Z.to_nat l in
+             let d1 := firstn L rest in let d2 := firstn L (skipn L rest) in
+             let tail := skipn (L + L) rest in
+             negb (l <? 0)%Z && list_eqb Z.eqb d1 d2 && list_eqb Z.eqb (before_marker tail) (after_marker tail)
+         | [] => false
+         end
+       else true) && rt_from r obr
+  | _, _ => true
+  end.
+Definition roundtrip_ok (c : case) : bool := rt_from (c_ops c) (c_obs c).
+
+(* ---- C13: an image that is valid under the format (the independent decoder reads it, the decoded
+   state is a theta sketch, the seed hash is the reader's) MUST be accepted and read back to
+   exactly that state; then re-serialized (op 13) it must decode to the same state again ---- *)
+Definition dump_matches (d : tabs) (ob : list Z) : bool :=
+  (nth 0 ob 0 =? 1)%Z
+  && Bool.eqb (negb (nth 1 ob 0 =? 0)%Z) (a_empty d)
+  && ((N.of_nat (length (a_entries d)) <? 2) || Bool.eqb (negb (nth 2 ob 0 =? 0)%Z) (a_ordered d))
+  && (zget ob 3 =? a_theta d) && (zget ob 4 =? a_seed_hash d)
+  && (zget ob 6 =? N.of_nat (length (a_entries d)))
+  && list_eqb N.eqb (map zN (skipn 7 ob)) (a_entries d)
+  && (if a_empty d then (nth 5 ob 0 =? 0)%Z else (nth 5 ob 0 =? est_spec (N.of_nat (length (a_entries d))) (a_theta d))%Z).
+
+Fixpoint foreign_from (sh : N) (cur : option tabs) (ops : list zop) (obs : list (list Z)) : bool :=
+  match ops, obs with
+  | (code, a) :: r, ob :: obr =>
+      if list_eqb Z.eqb ob PANIC then true else
+      if (code =? 12)%Z then
+        match dec_spec sh (map zN a) with
+        | Some d =>
+            if abs_okb d && (a_seed_hash d =? sh) && (negb (a_empty d) || true)
+            then dump_matches d ob && foreign_from sh (Some d) r obr
+            else foreign_from sh None r obr
+        | None => foreign_from sh None r obr
+        end
+      else if (code =? 13)%Z then
+        (match cur with
+         | Some d =>
+             match dec_spec sh (map zN ob) with
+             | Some d' => list_eqb N.eqb (a_entries d') (a_entries d) && (a_theta d' =? a_theta d)
+                          && Bool.eqb (a_empty d') (a_empty d) && (a_seed_hash d' =? a_seed_hash d)
+             | None => false
+             end
+         | None => true
+         end) && foreign_from sh cur r obr
+      else if (code =? 14)%Z then foreign_from sh None r obr
+      else foreign_from sh cur r obr
+  | _, _ => true
+  end.
+Definition foreign_ok (c : case) : bool := foreign_from (zN (nth 4 (c_cfg c) 0%Z)) None (c_ops c) (c_obs c).
+
+(* ---- C14: no panic, no runaway allocation; whatever deserialize returns as Ok is a theta sketch
+   (entries in (0, theta), theta in [1, 2^63-1], ascending when it says ordered) ---- *)
+Definition ok_dump_wf (ob : list Z) : bool :=
+  let th := zget ob 3 in let es := map zN (skipn 7 ob) in
+  (0 <? th) && (th <=? MAXT) && forallb (fun h => (0 <? h) && (h <? th)) es
+  && ((nth 2 ob 0 =? 0)%Z || strictly_sorted es) && (zget ob 6 =? N.of_nat (length es)).
+
+Fixpoint wf_from (ops : list zop) (obs : list (list Z)) : bool :=
+  match ops, obs with
+  | (code, a) :: r, ob :: obr =>
+      (if (code =? 12)%Z && (nth 0 ob 0 =? 1)%Z then ok_dump_wf ob else true) && wf_from r obr
+  | _, _ => true
+  end.
+Definition no_panic (c : case) : bool := no_panic_oracle c && wf_from (c_ops c) (c_obs c).
 
 (* Layout Spec (Appendix B.2 of DESIGN.md), evaluated on the crate's raw slot array: every
    stored key x sits on its own probe path  p_j(x) = (x + j * (2*((x >> lg) & 127) + 1)) mod 2^lg
@@ -231,4 +438,5 @@ Fixpoint layout_from (ops : list zop) (obs : list (list Z)) : bool :=
 Definition layout_ok (c : case) : bool := layout_from (c_ops c) (c_obs c).
 
 (* oracles by number (tools/families/theta.py: ORACLES) *)
-Definition oracles : list (Z * (case -> bool)) := [(0%Z, kmv_ok); (1%Z, layout_ok)].
+Definition oracles : list (Z * (case -> bool)) :=
+  [(0%Z, kmv_ok); (1%Z, layout_ok); (2%Z, roundtrip_ok); (3%Z, layout12_ok); (4%Z, foreign_ok); (5%Z, no_panic); (6%Z, size_ok)].
